@@ -56,6 +56,8 @@ pub struct ClockCfg {
     /// within that search (1-based; 0 is the read made by `start`)): from that read on
     /// the clock shows at least start + limit.
     pub forced_expiry: Vec<(u64, u64)>,
+    /// Some(j): every clock-limited search expires at its read j (cheap sessions).
+    pub forced_all: Option<u64>,
 }
 
 impl Default for ClockCfg {
@@ -65,6 +67,7 @@ impl Default for ClockCfg {
             cost_read_ns: 0,
             stalls: vec![],
             forced_expiry: vec![],
+            forced_all: None,
         }
     }
 }
@@ -308,6 +311,7 @@ impl Sim for World {
                 .forced_expiry
                 .iter()
                 .any(|(o, j)| *o == ord && sreads >= *j && *j > 0)
+                || st.clock.forced_all.map(|j| sreads >= j && j > 0).unwrap_or(false)
             {
                 let dl = start_ns.saturating_add(l.as_nanos().min(u64::MAX as u128) as u64);
                 if st.now_ns < dl {
@@ -596,6 +600,10 @@ pub fn install_panic_hook() {
 /// Handle to a simulated process: state shared between harness and installed `World`.
 pub struct Proc {
     pub st: Rc<RefCell<SimState>>,
+    /// the world that was installed on this thread before (nested use: a reference
+    /// computation inside a step-driven session); re-installed when this one ends
+    prev: RefCell<Option<Box<dyn Sim>>>,
+    ended: std::cell::Cell<bool>,
 }
 
 impl Proc {
@@ -607,19 +615,24 @@ impl Proc {
             let mut s = st.borrow_mut();
             s.stack_base = stack_addr();
         }
+        let prev = seam::uninstall();
         seam::install(Box::new(World {
             st: st.clone(),
             gui,
         }));
-        Proc { st }
+        Proc {
+            st,
+            prev: RefCell::new(prev),
+            ended: std::cell::Cell::new(false),
+        }
     }
 
     /// Runs engine code inside the simulated process and classifies how it ended.
     pub fn run<R>(&self, f: impl FnOnce() -> R) -> (Outcome, Option<R>) {
-        IN_SIM.with(|c| c.set(true));
+        let was_in_sim = IN_SIM.with(|c| c.replace(true));
         LAST_PANIC.with(|p| *p.borrow_mut() = None);
         let r = catch_unwind(AssertUnwindSafe(f));
-        IN_SIM.with(|c| c.set(false));
+        IN_SIM.with(|c| c.set(was_in_sim));
         match r {
             Ok(v) => (Outcome::Returned, Some(v)),
             Err(payload) => {
@@ -639,14 +652,23 @@ impl Proc {
         }
     }
 
+    fn end(&self) {
+        if !self.ended.replace(true) {
+            seam::uninstall();
+            if let Some(p) = self.prev.borrow_mut().take() {
+                seam::install(p);
+            }
+        }
+    }
+
     pub fn finish(self) -> Rc<RefCell<SimState>> {
-        seam::uninstall();
+        self.end();
         self.st.clone()
     }
 }
 
 impl Drop for Proc {
     fn drop(&mut self) {
-        seam::uninstall();
+        self.end();
     }
 }
